@@ -173,3 +173,15 @@ def fix_ncep(nodes):
         else:
             out.append(nd)
     return out
+
+
+def has_undefined(nodes):
+    """does the tree hold a descriptor that is in no table (also inside bodies that may run zero times)?"""
+    for nd in nodes:
+        if nd.t in ('UE', 'US'):
+            return True
+        if nd.t == 'D' and nd.factor is not None and nd.factor.t != 'E':
+            return True
+        if nd.members and has_undefined(nd.members):
+            return True
+    return False
